@@ -27,6 +27,7 @@ type Case struct {
 	Cancel     []int `json:"cancel"`     // context cancellation time of each call, relative to that call's start; -1 never
 	AddLate    []int `json:"addLate"`    // members (indexes) added only before the second call
 	ByMerge    bool  `json:"byMerge,omitempty"` // the late members arrive through Merge(other set) instead of Add
+	Deadline   bool  `json:"deadline,omitempty"` // the context ends through a deadline (WithTimeout) instead of a cancel call
 }
 
 type callObs struct {
@@ -148,7 +149,13 @@ func runInBubble(c Case) (res result) {
 		}
 		ctx, cancel := context.WithCancel(context.Background())
 		var cancelAbs time.Duration = -1
-		if cancelAt >= 0 {
+		if cancelAt > 0 && c.Deadline {
+			// the same end of the context, announced up front as a deadline
+			cancel()
+			ctx, cancel = context.WithTimeout(context.Background(), time.Duration(cancelAt)*time.Millisecond)
+			cancelAbs = callStart + time.Duration(cancelAt)*time.Millisecond
+			res.classes = append(res.classes, "context_with_deadline")
+		} else if cancelAt >= 0 {
 			cancelAbs = callStart + time.Duration(cancelAt)*time.Millisecond
 			if cancelAt == 0 {
 				cancel()
@@ -245,7 +252,7 @@ func runInBubble(c Case) (res result) {
 			if firstClose < 0 || ret < firstClose {
 				return fail("timing", "call %d returned channels at %v before any member was closed (first close %v)", call, ret, firstClose)
 			}
-			if ret > firstClose+settle && !(cancelAbs >= 0 && ret == cancelAbs) {
+			if ret > firstClose+settle {
 				return fail("timing", "call %d returned at %v, later than first close %v + settle %v", call, ret, firstClose, settle)
 			}
 			if err != nil && (cancelAbs < 0 || ret < cancelAbs) {
@@ -301,6 +308,7 @@ func genCase(t *rapid.T) Case {
 		c.AddLate = rapid.SliceOfN(rapid.IntRange(0, len(c.Members)-1), 0, 2).Draw(t, "late")
 		c.ByMerge = rapid.Bool().Draw(t, "byMerge")
 	}
+	c.Deadline = rapid.IntRange(0, 2).Draw(t, "deadline") == 0
 	return c
 }
 
